@@ -213,3 +213,74 @@ GLOBAL_STUBS = {
     "rankdata": rankdata,
 }
 FORCE = set()
+
+
+# --------------------------------------------------------------------------
+class LabelEncoderStub:
+    """sklearn.preprocessing.LabelEncoder by its documented contract: classes_ = sorted unique
+    labels; transform = position in classes_ (ValueError for unseen labels); inverse_transform =
+    classes_[index] (ValueError for out-of-range indices)."""
+
+    def fit(self, y):
+        y = column_or_1d(y)
+        self.classes_ = IMPL["unique"](y) if len(y) else arrays.SymNd(_np.empty(0, dtype=object), y._dt)
+        return self
+
+    def fit_transform(self, y):
+        return self.fit(y).transform(y)
+
+    def transform(self, y):
+        y = column_or_1d(y)
+        if len(y) == 0:
+            return arrays.SymNd(_np.empty(0, dtype=object), arrays.INT)
+        cls = list(raw(self.classes_))
+        out = []
+        for v in raw(y):
+            hit = None
+            for k, cv in enumerate(cls):
+                same = core.s_eq(v, cv)
+                if core.is_floatish(v) and core.is_floatish(cv):  # sklearn maps NaN to the NaN class
+                    same = core.mkbool(core.b_or(boolexpr(same), core.b_and(boolexpr(core.s_isnan(v)),
+                                                                             boolexpr(core.s_isnan(cv)))))
+                if bool(same):
+                    hit = k
+                    break
+            if hit is None:
+                raise ValueError("y contains previously unseen labels: %r" % (v,))
+            out.append(hit)
+        return arrays.SymNd(arrays._to_obj(out), arrays.INT)
+
+    def inverse_transform(self, y):
+        y = column_or_1d(y)
+        if len(y) == 0:
+            return arrays.SymNd(_np.empty(0, dtype=object), self.classes_._dt)
+        idx = arrays.cidx(y)
+        if _np.any((idx < 0) | (idx >= len(self.classes_))):
+            raise ValueError("y contains previously unseen labels: %s" % str(idx))
+        return self.classes_[idx]
+
+
+def confusion_matrix(y_true, y_pred, *, labels=None, sample_weight=None, normalize=None):
+    """sklearn.metrics.confusion_matrix by contract: C[i, j] = #samples with true label labels[i] and
+    predicted label labels[j] (entries outside `labels` ignored)."""
+    yt = list(raw(column_or_1d(y_true)))
+    yp = list(raw(column_or_1d(y_pred)))
+    if len(yt) != len(yp):
+        raise ValueError("Found input variables with inconsistent numbers of samples")
+    labs = list(raw(asnd(labels)))
+    K = len(labs)
+    out = _np.empty((K, K), dtype=object)
+    for i in range(K):
+        for j in range(K):
+            acc = 0
+            for a, b in zip(yt, yp):
+                acc = core.s_add(acc, arrays._logical_and(core.s_eq(a, labs[i]), core.s_eq(b, labs[j])))
+            out[i, j] = acc
+    return arrays.SymNd(out, arrays.INT)
+
+
+GLOBAL_STUBS.update({"LabelEncoder": LabelEncoderStub, "confusion_matrix": confusion_matrix})
+STUB_CONTRACTS.update({
+    "LabelEncoder": LabelEncoderStub.__doc__,
+    "confusion_matrix": confusion_matrix.__doc__,
+})
